@@ -31,6 +31,7 @@ def emits : Host → Bool
   | .foreach _ _ body => emits body
   | .loopUntil _ body _ _ _ => emits body
   | .tryUntil _ body => emits body
+  | .epr _ => false
 
 /-- number of register handles created by building the operation -/
 def hCount : Host → Nat
@@ -47,6 +48,7 @@ def hCount : Host → Nat
   | .foreach _ _ body => 1 + hCount body
   | .loopUntil _ body _ _ cl => 1 + hCount body + (if emits body then hCount cl else 0)
   | .tryUntil _ body => hCount body
+  | .epr _ => 0
 
 /-- number of arrays allocated by building the operation -/
 def aCount : Host → Nat
@@ -63,6 +65,7 @@ def aCount : Host → Nat
   | .foreach _ _ body => aCount body
   | .loopUntil _ body _ _ cl => aCount body + (if emits body then aCount cl else 0)
   | .tryUntil _ body => aCount body
+  | .epr _ => 0
 
 /-- the arrays an operation declares (address = static counter), in creation order -/
 def declsOf (na : Nat) : Host → List ArrDecl
@@ -81,6 +84,7 @@ def declsOf (na : Nat) : Host → List ArrDecl
   | .loopUntil _ body _ _ cl =>
     declsOf na body ++ (if emits body then declsOf (na + aCount body) cl else [])
   | .tryUntil _ body => declsOf na body
+  | .epr _ => []
 
 /-- handles of measurement registers (`measure(store_array=False)`) created by the operation:
 the SDK recycles M registers at every flush, so these handles die there -/
@@ -285,6 +289,7 @@ def hsem : Nat → Nat → Nat → Host → HSt → Option HSt
     clearOpt nh (iterUntil (hsem f (nh + 1) na body)
       (hsem f (nh + 1 + hCount body) (na + aCount body) cl) ef ev nh maxIter f (s.setH nh 0))
   | f + 1, nh, na, .tryUntil _ body, s => hsem f nh na body s
+  | _ + 1, _, _, .epr _, _ => none
 
 /-! ## programs: segments between flushes -/
 
